@@ -838,8 +838,13 @@ Pointset_Powerset<PSET>::strictly_contains(const Pointset_Powerset& y) const {
 template <typename PSET>
 template <typename Cons_or_Congr>
 Poly_Con_Relation
-Pointset_Powerset<PSET>::relation_with_aux(const Cons_or_Congr& c) const {
+Pointset_Powerset<PSET>::relation_with_aux(const Cons_or_Congr& c_arg) const {
   const Pointset_Powerset& x = *this;
+  // `c_arg' may be (a reference to) a row of the description of one of
+  // the disjuncts (also of another powerset sharing it): the lazy
+  // minimization of that disjunct would rewrite it before the remaining
+  // disjuncts are compared with it.  Work on a copy.
+  const Cons_or_Congr c(c_arg);
 
   /* *this is included in c if every disjunct is included in c */
   bool is_included = true;
